@@ -121,6 +121,13 @@ CLAIMS = {
             "The C03 tree and streams judged for mode consistency, both tables entry by entry, every valid configuration key "
             "name checked against the names the decoder can produce.",
             TRUST + "Invalid configuration names are recorded but not judged (the statement promises nothing for them).", "5/C20"),
+    "C04": ("TLA+ FSArray spec (FSArray.tla: Show/ExpectShow/MustFail, ImplAssign + ImplSetslice): TLC model-checks all assignment "
+            "sequences on small arrays (MC_FSArray), generates histories, and validates row snapshots of the real FSArray (FSArrayTrace.tla)",
+            "Histories of region/cell/row-slice assignments and reads on real arrays (TLC-generated behaviours, every single "
+            "assignment on pre-filled 1x2/2x2/2x3 arrays, seeded random histories); after each step TLC compares what every "
+            "cell shows with the specification, including 'error => nothing changed' and exact downward growth.",
+            TRUST + "Weakest reading: a block row longer than the region that only spills into blank cells may either raise or be "
+            "shown from c0; any exception class counts as an error; column bounds are within the array width.", "5/C04"),
 }
 
 NOT_BUILT = "check not built yet at this commit (planned with the same TLA+ technique, see DESIGN.md section 5)"
